@@ -234,6 +234,25 @@ theorem cache_stale_after_inplace_change :
     pureRun kern [] ops = [none, some [0, 1], none, some [5, 6]] := by
   decide +kernel
 
+/-- T9b (which entry is used).  A query re-uses an existing cache line exactly when the SAME array object (identity)
+    was passed before, and the line it uses is the one registered for that object; any other array — even one with equal
+    contents — gets its own line. -/
+theorem cache_hit_iff_same_array (s : TW) (id : Nat) :
+    ((s.register id).1 < s.eFermis.length ↔ id ∈ s.eFermis) ∧
+    (s.register id).2.eFermis[(s.register id).1]? = some id :=
+  ⟨register_hit_iff s id, register_hit_same s id⟩
+
+/-- T9c (a coarser key is wrong).  If the lookup accepted a stored array with the same LENGTH, FIRST and LAST value, a
+    second array with other interior points would receive the weights of the first one, although no array was ever
+    modified: arrays `0, 1, 2` and `0, 1/2, 2` (while the identity-keyed cache answers correctly, and the history is
+    `Safe`). -/
+theorem size_and_endpoints_key_is_wrong :
+    let kern : List Rat → Int → Nat → Nat → List Rat := fun ef _ _ _ => ef
+    let ops := [Op.mutate 1 [0, 1, 2], Op.mutate 2 [0, 1 / 2, 2], Op.query 1 0 0 0, Op.query 2 0 0 0]
+    runEnds kern ⟨[], TW.empty⟩ ops = [none, none, some [0, 1, 2], some [0, 1, 2]] ∧
+    run kern ⟨[], TW.empty⟩ ops = [none, none, some [0, 1, 2], some [0, 1 / 2, 2]] := by
+  decide +kernel
+
 /-- T10 (corner energies).  `Data_K.tetraWeights` feeds the weight object with `E_K` and `E_K_corners_parallel()`.  If
     these are the band energies `eps` at the FFT point and at the 8 corners of its cell (C33: the corner Hamiltonian is
     the Hamiltonian at the shifted k-point), the weight of band `ib` is the parallelepiped weight of the band structure
